@@ -31,7 +31,27 @@ pub fn holds(name: &str, _class: &str, detail: &str, replay: &Value) -> bool {
     }
 }
 
-pub fn classify(prop: &str, class: &str, detail: &str, replay: &Value, findings: &[Finding]) -> Option<String> {
+/// A violation is attributed to an open finding only if its (minimised) history trips the guard
+/// that is the finding's trigger predicate. Generated histories never trip their guards and the
+/// minimiser preserves that, so for generated cases this never fires: open findings are kept out
+/// by restricting inputs, not by explaining violations away afterwards. (An earlier version
+/// matched broad predicates such as "history contains ALTER" and swallowed a seeded change.)
+pub fn classify(prop: &str, class: &str, _detail: &str, replay: &Value, findings: &[Finding]) -> Option<String> {
+    let events: Vec<crate::stmt::Event> = replay.get("events").and_then(|e| serde_json::from_value(e.clone()).ok())?;
+    for f in findings {
+        if f.status != "open" || f.property != prop || f.oracle != class {
+            continue;
+        }
+        let Some(t) = &f.trigger else { continue };
+        if crate::guards::first_violation(&events, std::slice::from_ref(t)).is_some() {
+            return Some(f.id.clone());
+        }
+    }
+    None
+}
+
+#[allow(dead_code)]
+pub fn classify_old(prop: &str, class: &str, detail: &str, replay: &Value, findings: &[Finding]) -> Option<String> {
     for f in findings {
         if f.status != "open" || f.property != prop || f.oracle != class {
             continue;
